@@ -406,3 +406,56 @@ func VerifQueueBroadcast(m *Memberlist, name string, msg []byte) { m.queueBroadc
 func VerifGetBroadcasts(m *Memberlist, overhead, limit int) [][]byte {
 	return m.getBroadcasts(overhead, limit)
 }
+
+// VerifDecodes reports whether the body of a protocol message of the given type decodes
+// into the struct its handler uses.
+func VerifDecodes(msgType uint8, body []byte) bool {
+	var out any
+	switch messageType(msgType) {
+	case pingMsg:
+		out = &ping{}
+	case indirectPingMsg:
+		out = &indirectPingReq{}
+	case ackRespMsg:
+		out = &ackResp{}
+	case nackRespMsg:
+		out = &nackResp{}
+	case suspectMsg:
+		out = &suspect{}
+	case aliveMsg:
+		out = &alive{}
+	case deadMsg:
+		out = &dead{}
+	case compressMsg:
+		out = &compress{}
+	default:
+		return false
+	}
+	return decode(body, out) == nil
+}
+
+// VerifEncodeUserMsgHeader encodes a userMsgHeader with an arbitrary declared length.
+func VerifEncodeUserMsgHeader(n int) []byte {
+	buf, _ := encode(userMsg, &userMsgHeader{UserMsgLen: n}, false)
+	return buf.Bytes()
+}
+
+// VerifEncodePushPullHeader encodes a pushPullHeader with arbitrary declared sizes.
+func VerifEncodePushPullHeader(nodes, userStateLen int, join bool) []byte {
+	buf, _ := encode(pushPullMsg, &pushPullHeader{Nodes: nodes, UserStateLen: userStateLen, Join: join}, false)
+	return buf.Bytes()
+}
+
+// VerifEncodePushNodeState encodes one pushNodeState entry (without a type byte).
+func VerifEncodePushNodeState(r VerifPushNodeState) []byte {
+	buf, _ := encode(0, &pushNodeState{Name: r.Name, Addr: r.Addr, Port: r.Port, Meta: r.Meta, Incarnation: r.Incarnation, State: r.State, Vsn: r.Vsn}, false)
+	return buf.Bytes()[1:]
+}
+
+// VerifPushPullReq returns the number of push/pull requests currently being served.
+func VerifPushPullReq(m *Memberlist) uint32 { return m.pushPullReq.Load() }
+
+// VerifEncryptLocalState wraps encryptLocalState (stream framing of an encrypted message).
+func VerifEncryptLocalState(m *Memberlist, sendBuf []byte, label string) ([]byte, error) {
+	return m.encryptLocalState(sendBuf, label)
+}
